@@ -97,6 +97,40 @@ func c14Cases(tier string) []chainCase {
 				}})
 		}
 	}
+	// a key that is neither operator nor output address NAMES ITSELF as the signer of an unjail / begin-unstake for
+	// somebody else's node (so the signature check of the ante handler passes and it pays the fee): the message must be
+	// refused and every node record stay as it was - also when the node is jailed, and when governance has raised the
+	// minimum stake above the node's stake (the branch in which unjail handling queues the node for unstaking)
+	raiseMin := blk(tx("gov_param", "G", "from", "G", "key", "pos/StakeMinimum", "value", `"5000000"`))
+	for _, st := range []struct {
+		name string
+		pre  []BlockSpec
+	}{{"plain", nil}, {"node-jailed", []BlockSpec{{Absent: []string{"N1"}}, {Absent: []string{"N1"}}}}, {"minimum-raised-above-stake", []BlockSpec{raiseMin}},
+		{"jailed-and-minimum-raised", []BlockSpec{{Absent: []string{"N1"}}, {Absent: []string{"N1"}}, raiseMin}}} {
+		for _, kind := range []string{"node_unjail", "node_unstake"} {
+			for _, k := range []string{"A2", "N2"} {
+				st, kind, k := st, kind, k
+				t := tx(kind, k, "node", "N1", "as", k)
+				cases = append(cases, chainCase{Name: fmt.Sprintf("env0/%s-of-N1-by-self-named-%s/%s", kind, k, st.name), Class: "signer-other", Env: defaultEnv(),
+					Ref: append(append([]BlockSpec{}, st.pre...), BlockSpec{}), Subject: append(append([]BlockSpec{}, st.pre...), blk(t)), Want: []string{"balances"},
+					Oracle: func(r, s JobResult) (string, string) {
+						tr := lastTx(s)
+						before, after := obsRecords(r, "nodes"), obsRecords(s, "nodes")
+						d := balanceDelta(r, s)
+						onlyFee := true
+						for who := range d {
+							if who != k && who != "module:fee_collector" {
+								onlyFee = false
+							}
+						}
+						if tr.Code == 0 || fmt.Sprint(before) != fmt.Sprint(after) || !onlyFee {
+							return "unauthorized-tx-took-effect/signer-other", fmt.Sprintf("%s (%s is neither operator nor output address of N1; state: %s): result code %d, node records before %v after %v, balance changes %s", t.String(), k, st.name, tr.Code, before, after, deltaStr(d))
+						}
+						return "", ""
+					}})
+			}
+		}
+	}
 	for ei, env := range envs {
 		if ei == 1 {
 			// legacy environment (features activate later): only messages that exist before activation
